@@ -12,6 +12,9 @@ R20.3 call boundaries: assembly kernels with private conventions are analysed in
       other callees follow the SysV ABI (caller-saved state undefined afterwards, rax defined).
 R20.4 a new message forgets the old one: in every _ctx_mgr_submit_*, under flags & FIRST, the stores that reset
       total_length, partial_block_buffer_length and the digest precede every read of them.
+R20.5 manager init covers what submit / flush assume: every byte of the manager that a family's submit / flush
+      assembly may read at a fixed offset before writing it is written on every path by the init function that
+      family's ctx layer calls (memset, field stores, canonical counted loops).
 R20.6 init functions define the whole object: every _aes_gcm_init_* body stores to every byte of the context
       structure's defined fields on every path; the mh_* init functions memset the full context.
 NOT decided: dependence on lane-indexed manager memory (idle lanes) and on output-buffer prefill.
@@ -37,12 +40,13 @@ _P1 = {}
 _INLINE = {}
 
 
-def phase1(lib, key):
-    if key in _P1:
-        return _P1[key]
-    ip = absint.Interp(lib, lambda t: c19.summary_of(lib, t), keep_regs="rsp")
+def phase1(lib, key, ctx=None):
+    mk = (key, ctx) if ctx else key
+    if mk in _P1:
+        return _P1[mk]
+    ip = absint.Interp(lib, lambda t, c=None: c19.summary_of(lib, t, c), keep_regs="rsp", entry_facts=dict(ctx) if ctx else None)
     r = ip.run(lib.func(key))
-    _P1[key] = r
+    _P1[mk] = r
     return r
 
 
@@ -64,12 +68,13 @@ def make_call_handler(lib, priv, arity, reports_for):
             ck = tgt[1]
             entry = defined.DefInterp.copy(st)
             entry = (entry[0], entry[1], entry[2], entry[3], {})
-            mk = (ck, state_key(entry))
+            ctx = di.p1.callctx.get(i.addr) or None
+            mk = (ck, state_key(entry), ctx)
             if mk in _INLINE:
                 ex, reps = _INLINE[mk]
             else:
                 _INLINE[mk] = (None, [])
-                sub = defined.DefInterp(lib, lib.func(ck), phase1(lib, ck), entry, handler)
+                sub = defined.DefInterp(lib, lib.func(ck), phase1(lib, ck, ctx), entry, handler)
                 r = sub.run()
                 ex, reps = r.exit_state, r.reports
                 _INLINE[mk] = (ex, reps)
@@ -226,8 +231,12 @@ def run(chk):
     tot = collections.Counter()
     import json, os
     with open(os.path.join(build.VERIF, "tables", "c20_infeasible.json")) as fh:
-        infeasible = json.load(fh)["entries"]
-    inf_keys = {(e["function"], e["kind"], e["what"]): e for e in infeasible}
+        groups = json.load(fh)["groups"]
+    inf_keys = {}
+    for g in groups:
+        for e in g["entries"]:
+            inf_keys[(e["function"], g["kind"], e["what"])] = {"reason": g["reason"]}
+    used_inf = set()
     for objname in sorted(res):
         r = res[objname]
         for k in ("funcs", "ins", "sinks", "unknown_arity"):
@@ -235,10 +244,10 @@ def run(chk):
         for b in r["broken"]:
             chk.broke(b)
         for rp in r["reports"]:
-            what = rp["what"] if rp["kind"] in ("address", "mask", "call-argument", "return-value") else rp["kind"]
+            what = rp["what"] if rp["kind"] in ("address", "mask", "call-argument", "return-value") else rp["insn"]
             ident = (rp["function"], rp["kind"], what)
             if ident in inf_keys:
-                chk.notes.append("R20.1/2: %s %s %s is on a path confirmed infeasible: %s" % (rp["function"], rp["kind"], what, inf_keys[ident]["reason"]))
+                used_inf.add(ident)
                 tot["confirmed_infeasible"] += 1
                 continue
             rule = "R20.2" if rp["kind"] == "stack" else "R20.1"
@@ -249,6 +258,9 @@ def run(chk):
         for s in r["samples"]:
             if len(chk.samples) < 8:
                 chk.samples.append(s)
+    stale = sorted(set(inf_keys) - used_inf)
+    chk.extra["infeasible_table_entries"] = len(inf_keys)
+    chk.extra["infeasible_table_entries_no_longer_reported"] = [list(x) for x in stale][:20]
     nbad = len(chk.findings)
     chk.obligations["R20.1-3"] = [tot["sinks"], tot["sinks"] - nbad]
     for key, name in lib.entry_list[:3000]:
@@ -258,6 +270,7 @@ def run(chk):
     chk.extra.update({"functions": tot["funcs"], "instructions": tot["ins"], "sinks_checked": tot["sinks"], "functions_with_unknown_arity": tot["unknown_arity"],
                       "private_kernels_analysed_in_context": len(priv), "reports_on_confirmed_infeasible_paths": tot["confirmed_infeasible"]})
     ir_rules(chk, mods)
+    r20_5(chk, lib, mods)
     import selftest_x86
     ctl = selftest_x86.control_c20()
     chk.extra["positive_control"] = ctl
@@ -352,3 +365,181 @@ def ir_rules(chk, mods):
         chk.obligation("R20.6", ok, key=iname, sample={"function": iname, "struct_size": size})
         if not ok:
             chk.finding(Finding("R20.6", F.file or "?", iname, "init-coverage", "the init function does not zero the whole context (%s bytes) before anything else" % size, loc="%s:%s" % (F.file, F.line)))
+
+
+# ---------------------------------------------------------------------------------------------------------
+# R20.5 manager init covers what submit / flush assume
+def init_coverage(M, F, mods_fn, depth=0):
+    """Byte mask of the manager struct that F (state = arg 0) writes on every path; None if a loop has a shape
+    the analysis does not understand."""
+    cov = 0
+    # blocks that lie on every path to the return: those that dominate the ret
+    rets = F.rets()
+    for I in F.all_insts():
+        if I.op == "call":
+            cal = I.callee or ""
+            if cal.startswith(("llvm.memset", "memset", "__memset_chk")):
+                root, off = F.ptr_root(I.ops[0])
+                n = F.const_int(I.ops[2])
+                if F.is_arg(root, 0) and off is not None and n is not None and all(F.must_pass(R, {I.id}) for R in rets):
+                    cov |= ((1 << n) - 1) << off
+            elif "_mgr_init_" in cal and depth < 3:
+                G = mods_fn.get(cal)
+                r0 = F.ptr_root(I.ops[0])
+                if G is not None and not G.decl and F.is_arg(r0[0], 0) and r0[1] == 0 and all(F.must_pass(R, {I.id}) for R in rets):
+                    sub = init_coverage(G.module, G, mods_fn, depth + 1)
+                    if sub is None:
+                        return None
+                    cov |= sub
+        elif I.op == "store":
+            root, off = F.ptr_root(I.ops[1])
+            if not F.is_arg(root, 0):
+                continue
+            size = I.raw.get("size") or 0
+            if off is not None:
+                if all(F.must_pass(R, {I.id}) for R in rets):
+                    cov |= ((1 << size) - 1) << off
+                continue
+            # variable index: canonical counted loop  for (j = 0; j < K; j++)  a[j] = ...
+            chain = []
+            P = F.resolve(I.ops[1])
+            base = 0
+            var = None
+            ok = True
+            while isinstance(P, ir.Inst) and P.op in ("getelementptr", "bitcast"):
+                if P.op == "getelementptr":
+                    for e in P.raw.get("path", []):
+                        if "struct" in e:
+                            base += e["off"]
+                        elif e.get("array"):
+                            if e.get("index") is None:
+                                if var is not None:
+                                    ok = False
+                                var = (P, e["esize"])
+                            else:
+                                base += e["index"] * e["esize"]
+                P = F.resolve(P.ops[0])
+            if not ok or var is None:
+                return None
+            G_, esize = var
+            idx = None
+            for o in G_.ops[1:]:
+                r = F.resolve(o)
+                while isinstance(r, ir.Inst) and r.op in ("zext", "sext"):
+                    r = F.resolve(r.ops[0])
+                if isinstance(r, ir.Inst) and r.op == "phi":
+                    idx = r
+            if idx is None:
+                return None
+            # phi [0, pre], [add phi 1, latch]; loop header compares phi ult K
+            inc_ok = start_ok = False
+            for inc in idx.incoming:
+                v = F.resolve(inc["v"])
+                if F.const_int(v) == 0:
+                    start_ok = True
+                elif isinstance(v, ir.Inst) and v.op == "add" and F.const_int(v.ops[1]) == 1 and isinstance(F.resolve(v.ops[0]), ir.Inst) and F.resolve(v.ops[0]).id == idx.id:
+                    inc_ok = True
+            K = None
+            for U in F.users(idx):
+                if U.op == "icmp" and U.pred in ("ult", "slt") and F.const_int(U.ops[1]) is not None:
+                    K = F.const_int(U.ops[1])
+            if not (inc_ok and start_ok and K is not None and 0 < K <= 64):
+                return None
+            for k in range(K):
+                cov |= ((1 << size) - 1) << (base + k * esize)
+    return cov
+
+
+def exposed_reads(lib, key, limit):
+    """Bytes at fixed offsets from the first argument that function `key` may read before writing them."""
+    f = lib.func(key)
+    r = c19.analyse(lib, key)
+    written_in = {f.entry: 0}
+    work = [f.entry]
+    exposed = 0
+    full = (1 << limit) - 1
+    while work:
+        b = work.pop()
+        w = written_in[b]
+        for i in f.blocks[b]:
+            av = r.maddr.get(i.addr)
+            if av is None or av[1] or av[0][0] != "init" or av[0][1] != "RDI":
+                continue
+            off, size = av[0][2], av[2]
+            if size is None or off < 0 or off + size > limit:
+                continue
+            m = ((1 << size) - 1) << off
+            if i.reads_mem_operand():
+                exposed |= m & ~w
+            if i.writes_mem_operand():
+                w |= m
+        for s in f.succ.get(b, []):
+            if (b, s) in r.dead_edges:
+                continue
+            if s not in written_in:
+                written_in[s] = w
+                work.append(s)
+            elif written_in[s] & w != written_in[s]:
+                written_in[s] &= w
+                work.append(s)
+    return exposed & full
+
+
+def r20_5(chk, lib, mods):
+    mods_fn = {}
+    for M in mods.values():
+        for F in M.defined():
+            mods_fn.setdefault(F.name, F)
+    n = 0
+    for src, M in sorted(mods.items()):
+        if not CTX_UNIT.match(src) or "ctx_base" in src:
+            continue
+        inits = set()
+        users = set()
+        for F in M.defined():
+            for I in F.calls():
+                c = I.callee or ""
+                if re.match(r"^_\w+_(mb|sb)_mgr_init_\w+$", c):
+                    inits.add(c)
+                elif re.match(r"^_\w+_(mb|sb)_mgr_(submit|flush)_\w+$", c):
+                    users.add(c)
+        if len(inits) != 1 or not users:
+            chk.broke("R20.5: %s: expected one manager init and some submit/flush callees, found %s / %s" % (src, sorted(inits), sorted(users)))
+            continue
+        iname = next(iter(inits))
+        G = mods_fn.get(iname)
+        if G is None or G.decl:
+            chk.broke("R20.5: %s not defined in the C units" % iname)
+            continue
+        size = None
+        for sn, ds in G.module.distructs.items():
+            if sn.endswith("_MB_JOB_MGR"):
+                size = ds["size"]
+        cov = init_coverage(G.module, G, mods_fn)
+        if cov is None or size is None:
+            chk.broke("R20.5: %s has a store loop that is not a canonical counted loop (or the manager struct is unknown)" % iname)
+            continue
+        for u in sorted(users):
+            k = lib._by_name.get(u)
+            if k is None:
+                chk.broke("R20.5: %s not found in the object code" % u)
+                continue
+            ex = exposed_reads(lib, k, size)
+            missing = ex & ~cov
+            n += 1
+            chk.obligation("R20.5", missing == 0, key=(src, u), sample={"unit": src, "init": iname, "user": u, "exposed_bytes": bin(ex).count("1"), "init_covers_bytes": bin(cov).count("1")})
+            if missing:
+                offs = [b for b in range(size) if missing >> b & 1]
+                ranges = []
+                for b in offs:
+                    if ranges and ranges[-1][1] == b:
+                        ranges[-1][1] = b + 1
+                    else:
+                        ranges.append([b, b + 1])
+                names = []
+                ds = [d for sn, d in G.module.distructs.items() if sn.endswith("_MB_JOB_MGR")][0]
+                for lo, hi in ranges[:6]:
+                    mem = [m["name"] for m in ds["members"] if m["off"] <= lo < m["off"] + m["size"]]
+                    names.append("%s[+%d..+%d)" % (mem[0] if mem else "?", lo, hi))
+                chk.finding(Finding("R20.5", src, u, "init-coverage:" + iname, "%s reads manager bytes that %s (the init this family uses) does not write on every path: %s" % (u, iname, ", ".join(names)), loc="%s:%s" % (G.file, G.line)))
+    chk.floor("manager init / user pairs", n, 40)
